@@ -424,6 +424,14 @@ func keyValues(key string) []*Value {
 // RecValues enumerates values of a record: structs = field-wise covering (each field cycles through
 // its value set); messages = all presence subsets (≤ maxSubsetFields fields) × covering values; unions = every branch.
 func RecValues(r *schema.Record, depth int, limit int) []*RecValue {
+	out := recValues(r, depth, limit)
+	if depth == 0 && IsBig(r) {
+		out = append(out, BigValues(r, ThoroughBig)...)
+	}
+	return out
+}
+
+func recValues(r *schema.Record, depth int, limit int) []*RecValue {
 	if depth > 3 {
 		// recursion guard for self-referential records: only the smallest values
 		switch r.Kind {
@@ -524,3 +532,86 @@ func RecValues(r *schema.Record, depth int, limit int) []*RecValue {
 	}
 	return nil
 }
+
+// BigSizes are the element / byte counts around the decoders' pre-allocation threshold (4096).
+var BigSizes = []int{4096, 4097, 8193}
+var BigSizesThorough = []int{4095, 4096, 4097, 5000, 8192, 8193, 12289}
+
+// IsBig reports whether the record is one of the dedicated large-value cases.
+func IsBig(r *schema.Record) bool { return strings.HasPrefix(r.Name, "CXBig") }
+
+func bigValue(t *schema.Type, n int) *Value {
+	switch t.Kind {
+	case schema.Prim:
+		if t.Name == "string" {
+			return &Value{T: t, Str: strings.Repeat("0123456789abcdef", n/16+1)[:n]}
+		}
+	case schema.ArrayT:
+		v := &Value{T: t}
+		ev := Values(t.Elem, 1)
+		if t.Elem.Name == "string" {
+			ev = []*Value{{T: t.Elem, Str: ""}, {T: t.Elem, Str: "x"}}
+		}
+		for i := 0; i < n; i++ {
+			v.Elems = append(v.Elems, ev[i%len(ev)])
+		}
+		return v
+	case schema.MapT:
+		v := &Value{T: t}
+		vv := Values(t.Elem, 1)
+		for i := 0; i < n; i++ {
+			v.Keys = append(v.Keys, &Value{T: schema.P(t.Key), Bits: uint64(i)})
+			v.Vals = append(v.Vals, vv[i%len(vv)])
+		}
+		return v
+	}
+	return nil
+}
+
+// BigValues builds, for each size, a value of the record in which every string/array/map field holds that many
+// elements (messages: one field at a time as well as all together; unions: each branch).
+func BigValues(r *schema.Record, thorough bool) []*RecValue {
+	sizes := BigSizes
+	if thorough {
+		sizes = BigSizesThorough
+	}
+	var out []*RecValue
+	for _, n := range sizes {
+		switch r.Kind {
+		case schema.Struct:
+			rv := &RecValue{R: r, Fields: make([]*Value, len(r.Fields))}
+			for i, f := range r.Fields {
+				if b := bigValue(f.Type, n); b != nil {
+					rv.Fields[i] = b
+				} else {
+					rv.Fields[i] = Values(f.Type, 1)[1]
+				}
+			}
+			out = append(out, rv)
+		case schema.Message:
+			all := &RecValue{R: r, Fields: make([]*Value, len(r.Fields))}
+			for i, f := range r.Fields {
+				if b := bigValue(f.Type, n); b != nil {
+					all.Fields[i] = b
+					one := &RecValue{R: r, Fields: make([]*Value, len(r.Fields))}
+					one.Fields[i] = b
+					out = append(out, one)
+				}
+			}
+			out = append(out, all)
+		case schema.Union:
+			for bi, br := range r.Branches {
+				for _, iv := range BigValues(br.Rec, false) {
+					if len(out) < 64 {
+						out = append(out, &RecValue{R: r, Branch: bi, Inner: iv})
+					}
+				}
+			}
+			return out
+		}
+	}
+	return out
+}
+
+// ThoroughBig selects the larger size list for BigValues inside RecValues (set once by the worker).
+var ThoroughBig bool
